@@ -1,6 +1,6 @@
 """C14 — any allocation failure is reported cleanly, without leak or corruption."""
 import json
-import lib, uris
+import lib, uris, qmlib
 from lib import enc, enc_s, dec, show
 
 PID = "C14"
@@ -69,18 +69,26 @@ def run(chk):
             if o != m: corr.append((rq, fl, o, m))
             if fl == "A":
                 nontrivial.add(rq); by_op[w[0]] = by_op.get(w[0], 0) + 1
+    # the query-list calls: every position of dissect, compose and dissect -> compose -> free, against Model/QueryM.v
+    qmdl = qmlib.build_model(); qcorr = []
+    qcalls = qmlib.calls(chk, many=True)
+    nq = qmlib.explore(chk, exes, qmdl, qcalls, True, nontrivial, qcorr, by_op)
     if corr and not chk.violations:
         rq, fl, o, m = corr[0]
         chk.violation("correspondence broken: the memory-tier model and the implementation disagree on result, ledger or allocation trace (%d cases)" % len(corr),
                       {"correspondence": "Model/ParseM.v, Model/OpsM.v vs src (allocation order, sizes, error exits)", "request": rq, "build": fl, "impl": o, "model": m}, found_input=False)
+    if qcorr and not chk.violations:
+        rq, fl, o, m = qcorr[0]
+        chk.violation("correspondence broken: the memory-tier model of the query functions and the implementation disagree on result, *dest, ledger or allocation trace (%d cases)" % len(qcorr),
+                      {"correspondence": qmlib.CORR, "request": rq, "build": fl, "impl": o, "model": m}, found_input=False)
     still = {}
     for f in fnd.items:
         o = lib.run_lines(exes["A"], [f["witness_args"][0]])[0]
         still[f["shape"]] = " live=0 " not in o + " "
     fnd.report(chk, still)
     chk.cov["distinct_nontrivial"] = len(nontrivial)
-    chk.cov["rule"] = "every position k (1 .. requests+1) of the allocation sequence of every call, in fail-once and fail-from-k-on modes, for parse, make-owner, normalize (several masks, borrowed and owned), resolve and create-reference on small-scope and IP/percent inputs; result code, ledger after the caller's clean-up, read-only inputs, full allocation trace vs the memory-tier model; 4 builds"
-    chk.cov["distribution"] = {"calls": len(calls), "fault_plans": len(reqs), "by_operation(A)": by_op, "known_finding_hits": fnd.hits}
+    chk.cov["rule"] = "every position k (1 .. requests+1) of the allocation sequence of every call, in fail-once and fail-from-k-on modes, for parse, make-owner, normalize (several masks, borrowed and owned), resolve and create-reference on small-scope and IP/percent inputs, and for dissect query, compose query and dissect -> compose -> free (small-scope query texts over {a,&,=}, escapes, lists of <= 3 items, random longer ones); result code, item count and *dest, ledger after the caller's clean-up, read-only inputs, full allocation trace vs the memory-tier model; 4 builds"
+    chk.cov["distribution"] = {"calls": len(calls), "fault_plans": len(reqs), "query_calls": len(qcalls), "query_fault_plans": nq, "by_operation(A)": by_op, "known_finding_hits": fnd.hits}
     chk.cov["samples"] = [{"request": reqs[i]} for i in (1, len(reqs) // 2, len(reqs) - 1)]
     chk.cov["exhaustive"] = True
     return chk.finish(proofs, level="proof")
@@ -89,6 +97,9 @@ def replay(path):
     r = json.load(open(path)); exes = lib.build_impl(); mdl = lib.build_model()
     rq = r.get("request")
     if not rq: print(json.dumps(r, indent=1)); return 0
-    print("request:", rq); print("model  :", lib.run_lines(mdl, [rq])[0])
-    for fl, exe in exes.items(): print("impl %-7s:" % fl, lib.run_lines(exe, [rq])[0])
+    if qmlib.is_query(rq): mdl = qmlib.build_model()
+    print("request:", rq)
+    for fl, exe in exes.items():
+        print("model %-7s:" % fl, lib.run_lines(mdl, [rq], env={"DRV_CSIZE": "4" if fl.startswith("W") else "1"})[0])
+        print("impl  %-7s:" % fl, lib.run_lines(exe, [rq])[0])
     return 0
